@@ -23,13 +23,16 @@ CLAIM = {
             "with remapper_a(first namespace -> from) on the key side and (first namespace -> to) on the value side (14 positions). "
             "BRemapperImpl::map_field_fail / map_method_fail look in the owner's own table first, then iterate the provider's "
             "super-class set in its own order, recursing with unchanged name/descriptor and returning at the first answer, "
-            "else None; Vec<S> returns the first provider's answer; JarSuperProv::remap keeps every provider/class/super class in "
+            "else None; the search must not depend on the own lookup or on the owner having an entry; the stored key TupleKey and "
+            "the request TupleReq hash (name, descriptor) identically and are equivalent iff both are equal; Vec<S> returns the first provider's answer; JarSuperProv::remap keeps every provider/class/super class in "
             "order with each name through map_class. map_desc copies every char, replaces exactly the segment "
             "between `L` and the next `;` by map_class of it, refuses `L;` and a missing `;`. Namespace<N> is constructed only in "
             "quill::tree::names and Namespace::new refuses id >= N.",
     "note": "Not decided: grammar-wide correctness of map_desc on all descriptors (it relies on the validity invariant of the "
-            "descriptor newtypes, C18), shadowed members, unmapped intermediate owners (the search stops at an owner that has no "
-            "entry), X->Y->X identity. Trusted: rustc HIR/typeck; spec/quill_remapper.json (transcribed from the doc comments).",
+            "descriptor newtypes, C18), shadowed members, X->Y->X identity. Known findings (2): the super-class search of "
+            "map_field_fail / map_method_fail is nested in `if let Some(class) = self.classes.get(owner)`, so an owner or "
+            "intermediate super class without a mapping entry ends the search (fixes/proposed/C06-unmapped-owner-super-search.md). "
+            "Trusted: rustc HIR/typeck; spec/quill_remapper.json (transcribed from the doc comments).",
     "technique": "static analysis: normal-form term extraction (let/pattern inlining, transparent borrows/`?`/Some/Ok) compared "
                  "with reference terms; provenance separation of insert positions; guard dominance (path conditions) and "
                  "evaluation order of returns in the search functions",
@@ -88,8 +91,7 @@ def r06_1(F, q, R, spec):
                 continue
             n_impls += 1
             items = sorted(i["name"] for i in im["items"] if i.get("kind") == "Fn")
-            R.inst(rid, "no-override:%s as %s" % (im["self_ty"].split("<")[0].rsplit("::", 1)[-1] + "@" + cname,
-                                                   im["trait"].rsplit("::", 1)[-1]),
+            R.inst(rid, "no-override:%s as %s" % (im["self_ty"].split("<")[0], im["trait"].rsplit("::", 1)[-1]),
                    items == sorted(req), sp=im.get("sp"), expect=sorted(req), got=items,
                    detail="an implementation that overrides a default method bypasses the documented fallback")
     R.floor(rid, 11 + 9 + 4 + 7)
